@@ -12,6 +12,7 @@ import AcryoVerif.Model.Table
 import AcryoVerif.Model.Frame
 import AcryoVerif.Model.Pose
 import AcryoVerif.Model.Rigid
+import AcryoVerif.Model.Loader
 
 /-! Dispatch of hand-written model operations for the line-protocol driver. -/
 namespace Model
@@ -284,6 +285,57 @@ def opAffine (a : Array Rat) : String :=
 def opEulerTr (a : Array Rat) : String :=
   " ".intercalate ((translateEuler (a.toList.map fun q => Char.ofNat q.floor.toNat)).map fun c => toString c.toNat)
 
+/-! `batch op nargs args ...` : a history on a BatchLoader. A molecule is `(image id, tag)`.
+ops: 1 add id cnt (explicit id) | 2 addAuto cnt | 3 sort mul modp desc | 4 filter a b | 5 head k | 6 tail k
+| 7 group g (observation) | 8 slice lo hi. After every op: rows `id:tag`, then the task order. -/
+abbrev BRow := Int × Nat
+
+def showRows (r : List BRow) : String := ",".intercalate (r.map fun q => s!"{q.1}:{q.2}")
+
+def showBatch (r : List BRow) (imgs : List Int) : String :=
+  let tasks := tasksAsCode (fun (q : BRow) => q.1) r
+  "rows=" ++ showRows r ++ " tasks=" ++ ",".intercalate (tasks.map fun t =>
+    match t with | some q => s!"{q.1}:{q.2}" | none => "none") ++ " images=" ++ ",".intercalate (imgs.map toString)
+
+partial def runBatch (r : List BRow) (imgs : List Int) (next : Nat) (a : List Rat) (acc : List String) : List String :=
+  match a with
+  | [] => acc.reverse
+  | op :: nargs :: rest =>
+    let k := nargs.floor.toNat
+    let args := (rest.take k).map (·.floor)
+    let rest' := rest.drop k
+    let natArg (j : Nat) : Nat := (args.getD j 0).toNat
+    let intArg (j : Nat) : Int := args.getD j 0
+    let fresh (cnt : Nat) (id : Int) : List BRow := (List.range cnt).map fun t => (id, next + t)
+    let prune (r' : List BRow) : List Int := (pruneImages (imgs.map fun x => (x, 0)) (r'.map (·.1))).map (·.1)
+    let rowOp (f : List BRow → List BRow) : List BRow × List Int × Nat × String :=
+      let r' := f r
+      (r', prune r', next, showBatch r' (prune r'))
+    let (r', imgs', next', out) : List BRow × List Int × Nat × String :=
+      match op.floor with
+      | 1 =>
+        let id := intArg 0
+        let r' := r ++ fresh (natArg 1) id
+        let imgs' := if imgs.contains id then imgs else imgs ++ [id]
+        (r', imgs', next + natArg 1, showBatch r' imgs')
+      | 2 =>
+        let id := freshId imgs (imgs.length + 1) (imgs.length : Nat)
+        let r' := r ++ fresh (natArg 0) id
+        (r', imgs ++ [id], next + natArg 0, showBatch r' (imgs ++ [id]))
+      | 3 => rowOp fun x => if intArg 2 != 0 then Tab.sortBy (fun q => -(((q.2 : Int) * intArg 0) % intArg 1)) x
+                            else Tab.sortBy (fun q => ((q.2 : Int) * intArg 0) % intArg 1) x
+      | 4 => rowOp fun x => x.filter fun q => ((q.2 : Int) % intArg 0) == intArg 1
+      | 5 => rowOp fun x => x.take (natArg 0)
+      | 6 => rowOp fun x => x.drop (x.length - natArg 0)
+      | 7 => (r, imgs, next, "G " ++ " ".intercalate ((Tab.groupRows (fun (q : BRow) => ((q.2 : Int) % intArg 0)) r).map
+                fun g => s!"{g.1}=" ++ showRows g.2))
+      | 8 => rowOp fun x => Tab.sliceSel (intArg 0) (intArg 1) x
+      | _ => (r, imgs, next, "bad-op")
+    runBatch r' imgs' next' rest' (out :: acc)
+  | _ => ("bad-args" :: acc).reverse
+
+def opBatch (a : Array Rat) : String := " ; ".intercalate (runBatch [] [] 0 a.toList [])
+
 def dispatch (name : String) (a : Array Rat) : Option String :=
   match name with
   | "prepAffine" => some (flat (opPrepAffine a))
@@ -319,6 +371,7 @@ def dispatch (name : String) (a : Array Rat) : Option String :=
   | "localCoord" => some (opLocalCoord a)
   | "affine" => some (opAffine a)
   | "eulerTr" => some (opEulerTr a)
+  | "batch" => some (opBatch a)
   | _ => none
 
 end Model
